@@ -558,6 +558,22 @@ def run(ck: Check) -> int:
         _report_with_kind(ck, eng, reps, kind)
         functions_interpreted(ck, eng)
 
+    # ---- CPython cross-check of the interpreter on the verified functions (engine soundness guard)
+    from vlib.pyvc.crosscheck import crosscheck
+    ints = [0, 1, -1, 63, 64, -64, 127, 128, 8191, 8192, -8192, 2 ** 64, -(2 ** 70) + 3, 10 ** 30]
+    crosscheck(ck, F.forge_int, ints)
+    crosscheck(ck, F.forge_nat, [0, 1, 127, 128, 16383, 16384, 2 ** 64, -1])
+    crosscheck(ck, F.unforge_int, [enc_int(v) + b'\x07' for v in ints] + [b'\x80\x00', b'\x80', b''])
+    crosscheck(ck, F.forge_array, [(b'',), (b'abc',), (b'x' * 300, 1), (b'yz', 2)])
+    crosscheck(ck, F.unforge_array, [(b'\x00\x00\x00\x02abcd',), (b'\x00\x00\x00\x09ab',), (b'\x00\x00',), (b'\x02abc', 1)])
+    crosscheck(ck, F.get_tag, [(a, n) for a in range(5) for n in (0, 1, 2)])
+    crosscheck(ck, F.read_tag, list(range(3, 10)))
+    exprs = [{'int': '-300'}, {'string': 'hé'}, {'bytes': '00ff'}, [], [{'int': '1'}, [{'string': ''}]],
+             {'prim': 'Pair', 'args': [{'int': '1'}, {'prim': 'Some', 'args': [{'bytes': ''}], 'annots': ['%a', ':b']}]},
+             {'prim': 'Pair', 'args': [{'int': '1'}, {'int': '2'}, {'int': '3'}]}, {'prim': 'Unit', 'annots': ['@x']}, {'prim': 'nope'}, {'weird': 1}]
+    crosscheck(ck, F.forge_micheline, exprs)
+    crosscheck(ck, F.unforge_micheline, [MB.enc(x) for x in exprs[:8]] + [b'\x0b', b'\x02\x00\x00\x00\x05\x00\x01', b'\x00\x80\x00', b'\x03\xff'])
+
     # ---- S
     shapes = _shapes(ck.thorough())
     ck.bound('S.tree_shapes', len(shapes))
